@@ -772,6 +772,10 @@ impl Recv {
                 stream.id,
             );
             self.release_connection_capacity(sz, &mut None);
+            if stream.state.is_recv_end_stream() {
+                // The stream has ended: no more PUSH_PROMISE frames can arrive on it.
+                stream.notify_push();
+            }
             return Ok(());
         }
 
